@@ -133,6 +133,8 @@ def ctor_calls(S, qname):
 def ctor_rules(rep, prog):
     """what every query reads: the constructor stores exactly the given moments (copies, no change of values or dtype) and
     rejects a size mismatch before anything is stored"""
+    from .common import ctor_copies
+    ctor_copies(rep, prog, ND + "__init__", attrs=("mean", "covariance"))
     f4 = need(prog, ND + "__init__")
     S4 = Sym(prog)
     run_function(S4, f4)
